@@ -11,7 +11,7 @@ import json
 import os
 from typing import Any, Optional
 
-from ..engine.srcmodel import AnalysisError, Unfoldable, stmt_text, walk_local
+from ..engine.srcmodel import AnalysisError, Unfoldable, dotted, stmt_text, walk_local
 from ..engine.regmodel import RegModel, TokenRecord, UNFOLDED, MethodRef
 from ..engine.report import RuleResult, Finding
 from .common import finding
@@ -69,6 +69,78 @@ def guard_sets(reg: RegModel, ref: MethodRef) -> list[tuple[set[str], ast.If]]:
             continue
         out.append((s, n))
     return out
+
+
+def r04_3(ctx, counts) -> RuleResult:
+    """comment skipping keeps the current token"""
+    from ..engine.cfg import CFG
+    model = ctx.model
+    res = RuleResult(
+        'R04.3', 'COMMENT-TOKEN-FRAME',
+        'In every Parser.advance override that consumes (: :) comments, the current token is '
+        'saved once, before any call that advances the token stream while skipping, and '
+        'restored from that saved value afterwards: on no path from an advancing call '
+        '(advance / advance_until) does a re-assignment of the saved variable reach the restore '
+        '`self.token = saved`. Otherwise a run of comments restores the `:)` of the previous '
+        'comment as the current token and the expression no longer parses independently of its '
+        'comments.')
+    parser = model.find_class('Parser')
+    n = 0
+    for c in model.all_classes():
+        if not c.is_subclass_of(parser) or c is parser:
+            continue
+        f = c.methods.get('advance')
+        if f is None or "'(:'" not in f.module.source[f.node.col_offset:] or \
+                not any(isinstance(x, ast.Constant) and x.value == '(:' for x in ast.walk(f.node)):
+            continue
+        cfg = CFG(f.node)
+        restores = [nd for nd in cfg.nodes if nd.kind == 'stmt' and isinstance(nd.ast, ast.Assign)
+                    and any(dotted(t) == 'self.token' for t in nd.ast.targets)
+                    and isinstance(nd.ast.value, ast.Name)]
+        if not restores:
+            raise AnalysisError(f'{f.key}: restore `self.token = saved` not located')
+        for r in restores:
+            var = r.ast.value.id                                        # type: ignore[union-attr]
+            saves = [nd for nd in cfg.nodes if nd.kind == 'stmt' and isinstance(nd.ast, ast.Assign)
+                     and any(isinstance(t, ast.Name) and t.id == var for t in nd.ast.targets)]
+            if not saves:
+                raise AnalysisError(f'{f.key}: no save of `{var}` located')
+            # advancing calls inside the comment branch (after the first save lexically)
+            first_save = min(s_.ast.lineno for s_ in saves)
+            advs = [nd for nd in cfg.nodes if nd.ast is not None and nd.kind in ('stmt', 'test')
+                    and getattr(nd.ast, 'lineno', 0) >= first_save and any(
+                        isinstance(x, ast.Call) and isinstance(x.func, ast.Attribute)
+                        and x.func.attr in ('advance', 'advance_until', 'expression')
+                        for x in ast.walk(nd.ast.test if isinstance(nd.ast, (ast.If, ast.While))
+                                          else nd.ast))]
+            n += 1
+            bad = None
+            for a in advs:
+                for s_ in saves:
+                    # path a -> s_ (a re-save after an advance) and then s_ -> restore
+                    if cfg.path_avoiding([a], lambda q, s_=s_: q is s_, lambda q: False) is not None \
+                            and (s_ is r or cfg.path_avoiding(
+                                [s_], lambda q: q is r,
+                                lambda q: q in saves and q is not s_) is not None):
+                        bad = (a, s_)
+                        break
+                if bad:
+                    break
+            res.instances.append(f'{f.key}: token saved in `{var}` at L{first_save}, restored at '
+                                 f'L{r.ast.lineno}; re-saved after an advance: {bad is not None}')
+            if bad is None:
+                res.ok()
+            else:
+                res.fail(finding('R04.3', f, bad[1].ast, f're-save of {var} after advance',
+                                 f'`{stmt_text(bad[1].ast)}` can execute after '
+                                 f'`{stmt_text(bad[0].ast)[:40]}` has advanced the token stream and '
+                                 f'its value reaches `{stmt_text(r.ast)}`: after a run of two '
+                                 f'comments the restored current token is the `:)` of the first '
+                                 f'one (`1 (: a :)(: b :) + 2` does not parse)'))
+    counts['comment_advance_overrides'] = n
+    if n < 1:
+        raise AnalysisError('no advance override handling (: :) comments located')
+    return res
 
 
 def run(ctx) -> dict:
@@ -315,7 +387,7 @@ def run(ctx) -> dict:
                     f'{reg.statements_interpreted} statements, {reg.decorators_interpreted} '
                     f'decorator applications, {len(reg.semantics_checked)} REG-SEMANTICS facts')
     return {
-        'results': [r1, r2],
+        'results': [r1, r2, r04_3(ctx, counts)],
         'counts': counts,
         'explanation':
             'The binding powers, led/nud bodies and recursive expression() right binding powers '
